@@ -214,7 +214,7 @@ func (c xcase) call(src *tx.Src) (got int, err error) {
 				got = len(p)
 			}
 		}
-	case "ControlHandler(unchecked)":
+	case "ControlHandler(unchecked)", "HandleMethods(unchecked)":
 		// ControlHandler's doc calls checking the header optional ("optionally
 		// check its validity via ws.CheckHeader()"): here it is not checked.
 		// The handler gets the payload bytes that follow the header.
@@ -227,7 +227,17 @@ func (c xcase) call(src *tx.Src) (got int, err error) {
 			return 0, fmt.Errorf("harness: cannot decode own header")
 		}
 		psrc := tx.NewSrc(src.Data[hl:], nil)
-		err = wsutil.ControlHandler{Src: psrc, Dst: tx.NewRec(), State: st}.Handle(toWS(h))
+		ch := wsutil.ControlHandler{Src: psrc, Dst: tx.NewRec(), State: st}
+		switch {
+		case c.Entry == "ControlHandler(unchecked)":
+			err = ch.Handle(toWS(h))
+		case c.Op == ref.OpPing:
+			err = ch.HandlePing(toWS(h))
+		case c.Op == ref.OpPong:
+			err = ch.HandlePong(toWS(h))
+		default:
+			err = ch.HandleClose(toWS(h))
+		}
 		src.Pos, src.Reads = psrc.Pos, psrc.Reads
 	case "SkipCheck+ReadAll", "SkipCheck+Discard":
 		// SkipHeaderCheck is a documented option: nothing vets the headers,
@@ -629,9 +639,10 @@ func noteExtreme(c xcase, v xverdict) {
 func uncheckedCases() []xcase {
 	var cs []xcase
 	for _, op := range []byte{ref.OpPing, ref.OpPong, ref.OpClose} {
-		for _, l := range append([]int64{126, 65536, capLen + 1}, lengthTable...) {
+		for _, l := range append([]int64{126, 65536, capLen + 1, 1 << 26}, lengthTable...) {
 			for _, m := range []bool{false, true} {
-				cs = append(cs, xcase{Entry: "ControlHandler(unchecked)", Length: l, Masked: m, Op: op})
+				cs = append(cs, xcase{Entry: "ControlHandler(unchecked)", Length: l, Masked: m, Op: op},
+					xcase{Entry: "HandleMethods(unchecked)", Length: l, Masked: m, Op: op}) // HandlePing / HandlePong / HandleClose called directly
 			}
 		}
 	}
@@ -706,13 +717,13 @@ func TestKnownFindings(t *testing.T) {
 	var us []desc
 	for _, c := range cs {
 		hx.Eval()
-		hx.Class("extreme/ControlHandler(unchecked)/" + c.opName())
+		hx.Class("extreme/" + c.Entry + "/" + c.opName())
 		if v, ok := vs[c.key()]; !ok {
 			t.Errorf("VERIF-INFRA: no verdict for %s", c.key())
 		} else if v.bad {
 			us = append(us, desc{c, c.inputDesc(), v.symptom})
 			if len(us) <= 2 {
-				t.Logf("ControlHandler.Handle(unchecked header) op=%#x announced=%d masked=%v: %s", c.Op, c.Length, c.Masked, v.symptom)
+				t.Logf("%s op=%#x announced=%d masked=%v: %s", c.Entry, c.Op, c.Length, c.Masked, v.symptom)
 			}
 		}
 	}
